@@ -78,6 +78,7 @@ func (v *MemVCS) Snapshot() map[string][]byte {
 
 // Load replaces the committed files (keys are root-relative).
 func (v *MemVCS) Load(files map[string][]byte) {
+	v.Log = nil
 	v.head = make(map[string][]byte, len(files))
 	for k, b := range files {
 		v.head[path.Join(v.Root, k)] = append([]byte(nil), b...)
